@@ -83,3 +83,7 @@ Lemma routing_roundtrip o nbytes knob :
   g_read_kind (entry_class_of (fst (kind_of_oclass o nbytes knob)))
   = Some (reader_of (wanted_wkind o nbytes knob), limit_reaches (wanted_wkind o nbytes knob)).
 Proof. rewrite write_routing. apply read_routing. Qed.
+
+(* ---------------------------------------------------------------- the async flag reaches the stager (C09) *)
+Lemma async_flag_reaches_stager : forallb (fun b => b) g_async_flag_hops = true.
+Proof. vm_compute. reflexivity. Qed.
